@@ -278,7 +278,7 @@ def run_shard(ctx, cases, res, name):
         if "error" in r:
             impl = "None"
             if r["error"] not in ("ValueError", "RuntimeError", "IndexError"):
-                failures.append({"case": brief(c), "impl": r, "why": f"implementation raised {r['error']} (not a shape/argument rejection)"})
+                failures.append({"why": f"implementation raised {r['error']} (not a shape/argument rejection)", "impl": r, "case": brief(c)})
                 continue
         else:
             impl = "(Some " + coq_list([qc(v) for v in r["val"]]) + ")"
@@ -297,7 +297,7 @@ def run_shard(ctx, cases, res, name):
             r = res[i]
             why = ("implementation raises where the model returns a value" if "error" in r else
                    "model value differs from implementation (or the model rejects an input the implementation accepts)")
-            failures.append({"case": brief(cases[i]), "impl": r, "why": why})
+            failures.append({"why": why, "impl": r if "error" in r else {"val": r["val"][:8]}, "case": brief(cases[i])})
     return failures
 
 
@@ -362,14 +362,21 @@ def search(ctx, broken, corr_failures):
 
 
 def explains(broken_item, found):
-    """a concrete failing input explains a broken obligation when it is about the same function"""
-    keys = " ".join(v.key for v in found)
+    """A concrete failing input explains a broken obligation only when it is about the same function AND is not an
+    already known finding; the two known defects that make the implementation raise where the model returns a value
+    explain exactly the correspondence disagreements they cause."""
     b = broken_item
+    keys = {v.key for v in found}
+    if b.startswith("correspondence:"):
+        if "unexpected keyword argument 'gamma'" in b:
+            return "C16:tversky_loss:raises" in keys
+        if "'weight' shape must be compatible" in b and '"kind": "tversky"' in b:
+            return "C16:tversky_index:weight-binary-raises" in keys
+    known, _ = vlib.load_findings()
+    fresh = " ".join(k for k in keys if k not in known)
     fns = ["tversky_loss", "tversky_index", "tversky", "dice", "ncc", "wlcc", "lcc", "ssd", "mse", "mae", "l1", "huber", "smooth_l1", "mi_loss"]
     hit = [f for f in fns if f in b]
-    if hit:
-        return any(f in keys for f in hit)
-    return False
+    return bool(hit) and any(f in fresh for f in hit)
 
 
 def replay(ctx, data):
